@@ -12,6 +12,9 @@ def write(rep, level, rule, exhaustive=False):
     cov["exhaustive"] = bool(exhaustive)
     if cov["states"] < 1:
         cov["states"] = 0
+    if not cov["samples"]:
+        # a check that recorded no explicit sample: the first distinct non-trivial cases it counted ARE actual cases of this run
+        cov["samples"] = [repr(k) for k in sorted(rep.nontrivial, key=repr)[:4]]
     cov.update(rep.extra)
     cov["impl_drift"] = rep.drift[:20]
     cov["known_findings_seen"] = {k: {"count": v[0], "what": v[1]} for k, v in rep.known.items()}
